@@ -34,8 +34,10 @@ func verifConfig(n, k int) *verifCfg {
 		c.ids = append(c.ids, id)
 		c.origins = append(c.origins, origin)
 		c.keys = append(c.keys, key)
-		rt.RegisterKey(key, origin)
-		c.logs[id] = LogInfo{SigV: &rt.Verifier{K: key, N: origin}, Origin: origin, Hasher: rfc6962.DefaultHasher}
+		// the key's name belongs to the key, not to the origin: logs that share a key share its name
+		name := rt.UFStr("keyName", key)
+		rt.RegisterKey(key, name)
+		c.logs[id] = LogInfo{SigV: &rt.Verifier{K: key, N: name}, Origin: origin, Hasher: rfc6962.DefaultHasher}
 	}
 	for j := 0; j < k; j++ {
 		wk := rt.U64("wkey")
